@@ -29,8 +29,14 @@ def cases(tier, seed):
     nets = gen.corpus() + [gen.draw(rng, cl, nmax) for _ in range(count)]
     out = []
     w = [3, 3, 3, 2, 2, 2, 3]
+    wq = w + [2, 1, 1]
     for n in nets:
-        c = {"net": n, "cls": n["cls"], "history": history.gen_history(rng, history.PLAIN, rng.randint(3, 12), w), "rs": rng.randrange(1 << 30)}
+        if rng.random() < 0.35:
+            # interleave pure queries that cache percolated nets / attractor data on stubs (the structure must not care)
+            h = history.gen_history(rng, history.PLAIN_Q, rng.randint(4, 12), wq)
+        else:
+            h = history.gen_history(rng, history.PLAIN, rng.randint(3, 12), w)
+        c = {"net": n, "cls": n["cls"], "history": h, "rs": rng.randrange(1 << 30)}
         if rng.random() < 0.15:
             # a tight resource limit: node expansion may raise RuntimeError, the node must then stay unexpanded
             c["config"] = {"max_motifs_per_node": rng.choice([2, 3, 4])}
